@@ -127,6 +127,16 @@ func privModel(x *Exec, fr *frame, ins ssa.CallInstruction, c *ssa.CallCommon, a
 func getFieldModel(x *Exec, fr *frame, ins ssa.CallInstruction, c *ssa.CallCommon, args []Val, st *State, r string) (Val, string) {
 	id := args[1]
 	off := x.vc.S.def("reqslot", ic(sx("*", sx("+", sx("*", id[0].T, "256"), id[1].T), "16"))).T
+	if !x.vc.S.decl["req-distinct"] {
+		// the ghost request object is none of the handler's real inputs
+		x.vc.S.decl["req-distinct"] = true
+		for _, p := range []string{"p_cc_0", "p_t_0"} {
+			if x.vc.S.decl[p] || true {
+				x.vc.S.raw("(assert (not (= " + p + " REQ)))")
+				x.vc.markDistinct(p, "REQ")
+			}
+		}
+	}
 	key := "reqfield:" + off
 	if !x.vc.S.decl[key] {
 		x.vc.S.decl[key] = true
